@@ -90,6 +90,7 @@ def inject_faults(ch, script, g, ended, netlistable):
     design = g.d
     out = list(script)
     nfaults = ch.rint(1, 2, "nfaults")
+    tainted = set()
     for fno in range(nfaults):
         label = f"F{fno}"
         # where: after some module's end, before the final calls
@@ -147,6 +148,9 @@ def inject_faults(ch, script, g, ended, netlistable):
         if not fixed and kind != "design":
             block.append(["reset_elab"])
         out = out[:at] + block + out[at:]
+        tainted |= set(hier)
+    # no late edits to modules a failed call may have left partially elaborated (contested ground)
+    out = [op for op in out if op[0] != "expect_raise"]
     return out
 
 
@@ -311,6 +315,17 @@ def run(scn):
             eff.append(op[1])
         else:
             eff.append(op)
+    # Contested ground (not generated, DESIGN section 4): an edit that was *accepted* by a module
+    # which an earlier failed call left partially elaborated.  Neither C07 (fully elaborated
+    # modules refuse additions) nor C08 defines what such an edit means.
+    for k, op in enumerate(ops):
+        if op[0] == "expect_raise" and outcomes[k] is not None and not outcomes[k]["raised"]:
+            d0 = design_at(eff, k)
+            for j in range(k):
+                if ops[j][0] in interp.EXPORT_OPS and outcomes[j] is not None and not outcomes[j].get("ok") and op[1][1] in hierarchy(d0, ops[j][1]):
+                    res["discard"] = "late edit accepted by a partially elaborated module (contested)"
+                    probe("late_edit_on_partially_elaborated_module")
+                    return res
     raw_ops, ops = ops, eff
     scn = dict(scn)
     scn["ops"] = eff
